@@ -13,6 +13,7 @@ import Sb.Corr.YawOps
 import Sb.Corr.LightOps
 import Sb.Corr.RthOps
 import Sb.Corr.LoadOps
+import Sb.Corr.BuilderOps
 
 open Sb.Corr
 
@@ -34,6 +35,7 @@ def dispatch (op : String) (args impl : List String) : Verdict :=
   | "lightq" => opLightq args impl
   | "rth" => opRth args impl
   | "load2" => opLoad2 args impl
+  | "bld" => opBld args impl
   | "traj" => opTraj args impl
   | "yawq" => opYawq args impl
   | "facc" => opFacc args impl
